@@ -106,8 +106,12 @@ fn measure_inc(p: &dyn Pa) -> (i64, bool) {
 
 /// classification of the exact ideal increment x = 2^w * num / den
 fn ideal(x: Option<u128>, w: u32, nums: &[f32], dens: &[f32]) -> (&'static str, i64, i64) {
+    // in the documented uses the increment never exceeds 10 counter ranges (a 1 ms envelope phase at a
+    // 100 Hz sample rate; the LFO stays below one range): beyond 16 ranges nothing is expected
+    let limit = 16u128 << w;
     match x {
-        None => ("sat", 0, 0),
+        None => ("any", 0, 0),
+        Some(v) if v > limit => ("any", 0, 0),
         Some(v) if v >= (1u128 << 32) + (1u128 << 11) => ("sat", 0, 0),
         Some(v) if v >= (1u128 << 30) => ("huge", 0, 0),
         Some(_) => match ratio_fix16(nums, dens, w as i32) {
@@ -192,7 +196,7 @@ impl<'a> Session<'a> {
         } else if f.is_nan() || f < 0.0 {
             ("any", 0, 0)
         } else if f.is_infinite() {
-            ("sat", 0, 0)
+            ("any", 0, 0)
         } else {
             ideal(ratio_floor(&[f], &[self.fs], self.w as i32), self.w, &[f], &[self.fs])
         };
@@ -210,7 +214,7 @@ impl<'a> Session<'a> {
         } else if per.is_nan() || per < 0.0 || (per == 0.0 && per.is_sign_negative()) {
             ("any", 0, 0)
         } else if per == 0.0 || (1.0f32 / per).is_infinite() {
-            ("sat", 0, 0)
+            ("any", 0, 0)
         } else {
             ideal(ratio_floor(&[], &[per, self.fs], self.w as i32), self.w, &[], &[per, self.fs])
         };
